@@ -24,9 +24,9 @@ Place(c) == /\ Len(word) < MaxLen /\ PinMayAppend(word, c)
 Next == \E c \in Letters : Place(c)
 
 \* ---- tables (constants) ----------------------------------------------------------------
-Sigmas == PPermsBetween(1, PattLen)
+Sigmas == PPermsBetween(0, PattLen)          \* including the empty permutation, whose only pin word is the empty word
 WordsOfPerm == [s \in Sigmas |-> {u \in PinWordsOf(Len(s)) : PinPerm(u) = s}]
-ShortWords == UNION {PinWordsOf(n) : n \in 1..OccLen}
+ShortWords == UNION {PinWordsOf(n) : n \in 0..OccLen}
 
 Quad == [i \in DOMAIN word |-> PinQuadrantOf(cfg, i)]
 OccSP(f, i) == /\ i + Len(f) - 1 <= Len(word) /\ Quad[i] = f[1]
